@@ -254,6 +254,23 @@ func termShapes() []*shape {
 			&shape{K: "select", Kids: []*shape{x}},
 		)
 	}
+	// else-if chains (their tails are statements, not blocks) inside the constructs whose verdict depends on a break
+	ex := &shape{K: "expr"}
+	for _, a := range leaves {
+		chain2 := &shape{K: "if", Kids: []*shape{ex, {K: "if", Kids: []*shape{a}}}}
+		chain3 := &shape{K: "if", Kids: []*shape{ex, {K: "if", Kids: []*shape{ex, a}}}}
+		chain4 := &shape{K: "if", Kids: []*shape{ret, {K: "if", Kids: []*shape{ret, {K: "if", Kids: []*shape{a, ret}}}}}}
+		for _, ch := range []*shape{chain2, chain3, chain4} {
+			all = append(all,
+				ch,
+				&shape{K: "for", Kids: []*shape{ch}},
+				&shape{K: "for", Kids: []*shape{{K: "block", Kids: []*shape{ch, ex}}}},
+				&shape{K: "switch", Default: true, Kids: []*shape{ch, ret}},
+				&shape{K: "switch", Default: true, Kids: []*shape{{K: "block", Kids: []*shape{ch, ret}}, ret}},
+				&shape{K: "select", Kids: []*shape{{K: "block", Kids: []*shape{ch, ret}}}},
+			)
+		}
+	}
 	if termDeep {
 		// level 3: wrap every level-2 shape once more in each composite that affects termination
 		n := len(all)
